@@ -845,5 +845,8 @@ PROPS["C06"]["explanation"] += " (ELEMCOUNT) an element count handed to a conver
 PROPS["C10"]["rules"] = PROPS["C10"]["rules"] + [rules_sd.rule_coord_scan_skips_sds]
 PROPS["C10"]["explanation"] += " (CRDSCAN) a scan for a dimension's coordinate variable never fails on a same-named data set."
 
+PROPS["C14"]["rules"] = PROPS["C14"]["rules"] + [rules_access.rule_delete_checks_access_first]
+PROPS["C14"]["explanation"] += " (DELACC) a routine that removes an instance from the in-memory table and deletes its descriptors tests the file's write access first."
+
 NOT_APPLICABLE = {}
 
